@@ -7,13 +7,16 @@ import hashlib, os
 from . import common, gen, hist, c01, c02, c07
 from .common import hexs
 
+VARIANTS = ("plain", "vg")
 
-def run_twice(ctx, L, label, meta):
+
+def run_twice(ctx, L, label, meta, variant="adfh"):
     imgs = []
     outs = []
+    meta = dict(meta, build=variant)
     for (hf, sf) in ((0xAA, 0x11), (0x55, 0xEE)) + (((0x00, 0xFF),) if ctx.tier == "thorough" else ()):
         LL = ["heapfill %d" % hf, "stackfill %d" % sf, "clock 1000000000"] + [l for l in L if not l.startswith("dump") and l != "spectree"] + ["dump $W/final"]
-        rc, out, err, wd = common.run_script(ctx, "\n".join(LL) + "\n", timeout=300)
+        rc, out, err, wd = common.run_script(ctx, "\n".join(LL) + "\n", timeout=300, variant=variant)
         p = os.path.join(wd, "final")
         if rc != 0 or not os.path.exists(p):
             ctx.fail("crash", "harness exit %d in a determinism run" % rc, {"generator": label, "meta": meta, "script": LL}, actual=(out[-2:], err[-200:]))
@@ -21,7 +24,7 @@ def run_twice(ctx, L, label, meta):
         imgs.append(open(p, "rb").read())
         outs.append([l for l in out if " ok" in l or " err" in l])
         os.unlink(p)
-    ctx.count((label, hashlib.sha1("\n".join(L).encode()).hexdigest()))
+    ctx.count((label, variant, hashlib.sha1("\n".join(L).encode()).hexdigest()))
     ctx.bump("history:" + label)
     a = imgs[0]
     for b in imgs[1:]:
@@ -40,9 +43,46 @@ def run_twice(ctx, L, label, meta):
         ctx.sample({"generator": label, "meta": meta, "lines": len(L)})
 
 
+def memcheck_pass(ctx, cases):
+    """the same scripts under valgrind memcheck (no pre-fill, -O0 build): the harness asks memcheck whether every byte of every
+    buffer handed to the device is defined - this also sees remnants of earlier callees' stack frames and of freed heap blocks,
+    which are the same in both pre-filled runs"""
+    import shutil, subprocess
+    if shutil.which("valgrind") is None:
+        ctx.notes.append("valgrind not found: definedness pass skipped")
+        return
+
+    def one(job):
+        k, (label, meta, L) = job
+        d_ = os.path.join(ctx.work, "mc%d" % k)
+        os.makedirs(d_, exist_ok=True)
+        LL = ["clock 1000000000"] + [l for l in L if not l.startswith("dump") and l != "spectree"]
+        sp = os.path.join(d_, "script")
+        open(sp, "w").write(("\n".join(LL) + "\n").replace("$W", d_))
+        r = subprocess.run(["valgrind", "-q", "--error-exitcode=97", "--track-origins=no", "--leak-check=no", ctx.bin("adfh-vg"), sp, d_],
+                           stdout=subprocess.PIPE, stderr=subprocess.PIPE, text=True, timeout=1200)
+        shutil.rmtree(d_, ignore_errors=True)
+        return r.returncode, r.stdout, r.stderr
+    for (label, meta, L), (rc, out, err) in zip(cases, common.pmap(one, list(enumerate(cases)))):
+        ctx.count(("memcheck", label, hashlib.sha1("\n".join(L).encode()).hexdigest()))
+        ctx.bump("memcheck:" + label)
+        undef = [l for l in out.splitlines() if " undef block=" in l]
+        if undef:
+            ctx.fail("oracle", "bytes that memcheck considers uninitialised were written to the device", {"generator": label, "meta": meta, "script": L},
+                     expected="every byte written is defined by the calls, their arguments and the clock",
+                     actual={"first_writes": undef[:4], "valgrind": [l for l in err.splitlines() if " at 0x" in l or " by 0x" in l][:6]})
+        elif rc not in (0,):
+            if rc == 97:
+                # other memcheck errors (branch on uninitialised value ...) belong to C09; note them
+                ctx.notes.append("memcheck reported errors other than undefined device writes in a %s run (judged by C09)" % label)
+            else:
+                ctx.fail("crash", "harness exit %d under valgrind" % rc, {"generator": label, "meta": meta, "script": L}, actual=out.splitlines()[-2:])
+
+
 def run(ctx):
     proof = common.proof_status(ctx)
     rng = ctx.rng
+    mc = []
     # formatting calls
     for flav in ([0, 1, 5, 7] if ctx.tier == "quick" else list(range(8))):
         for kind in ("DD", "HD", "HF:4100", "HF:%d" % (26 * 4064 + 7), "PART:130:2:16:2,60;62,66"):
@@ -50,6 +90,10 @@ def run(ctx):
                 continue
             L = gen.dev_create(kind, flav, b"name") + ["mountdev 0", "mount 0 0", "mkdir - %s" % hexs(b"d"), "open 0 - %s w" % hexs(b"f"), "write 0 3 3", "close 0", "umount", "umountdev"]
             run_twice(ctx, L, "format", {"device": kind, "flavour": flav})
+            if not kind.startswith("HF:1"):
+                mc.append(("format", {"device": kind, "flavour": flav}, L))
+            # the unoptimised build too: an optimising compiler may overlay an uninitialised local with a zeroed one
+            run_twice(ctx, L, "format", {"device": kind, "flavour": flav}, variant="adfh-vg")
             if len(ctx.failures) > 5:
                 break
     # operation histories
@@ -58,7 +102,9 @@ def run(ctx):
         if len(ctx.failures) > 5:
             break
         L, first, nb, meta = c01.builders(ctx)[i % 30][1](ctx)
-        run_twice(ctx, L, "file-history", meta)
+        run_twice(ctx, L, "file-history", meta, variant="adfh" if i % 2 else "adfh-vg")
+        if len(L) < 150:
+            mc.append(("file-history", meta, L))
     for i in range(6 if ctx.tier == "quick" else 150):
         if len(ctx.failures) > 5:
             break
@@ -69,8 +115,12 @@ def run(ctx):
             break
         L, first, nb, meta = c07.cache_history(ctx)
         run_twice(ctx, L, "cache-history", meta)
+        if i < 4:
+            mc.append(("cache-history", meta, L))
+    if len(ctx.failures) <= 5:
+        memcheck_pass(ctx, mc)
     rule = ("formatting of DD/HD floppies, hardfiles (incl. > 25 bitmap pages) and a partitioned disk for several flavour bytes, and file / namespace / directory-cache "
-            "histories, each run twice (thorough: three times) with different heap and stack pre-fill bytes and a pinned clock; distinct = distinct script")
+            "histories, in the -O1 and the -O0 build of the library, each run twice (thorough: three times) with different heap and stack pre-fill bytes and a pinned clock; the format calls and part of the histories again under valgrind memcheck with every buffer handed to the device checked for undefined bytes; distinct = distinct script")
     return common.finish(ctx, proof, rule, level="exploration",
                          assumptions=["memory obtained by the library comes from malloc (wrapped: pre-filled) or from the stack (pre-filled before each API call to a depth of 48 KiB)",
                                       "struct padding does not exist in the block structs (sizes proved in C03_block_sizes)"])
